@@ -1,4 +1,4 @@
-From Coq Require Import List Arith Lia.
+From Coq Require Import List Arith Lia Permutation.
 From SV Require Import SM.C17Rounds.
 Import ListNotations.
 
@@ -90,8 +90,9 @@ Proof.
   rewrite IH. reflexivity.
 Qed.
 
-(** A file that includes itself twice: the pending set doubles every round, so the loop performs
-    [2^limit - 1] collapses before it raises (defect #32: with the default limit of 100 that is 2^100 - 1). *)
+(** A file that includes itself twice: the pending set doubles every round, so the loop without the ancestry check
+    performs [2^limit - 1] collapses before it raises (defect #32, repaired in round 4 - see [loop2] below: with the
+    default limit of 100 that was 2^100 - 1). *)
 Lemma round_double : forall n, round (fun _ => [0; 0]) (repeat 0 n) = repeat 0 (2 * n).
 Proof.
   induction n as [|n IH]; [reflexivity|]. cbn [repeat C17Rounds.round flat_map app].
@@ -119,3 +120,255 @@ Example chain_done : loop chain 4 [2] = (Done, 3, 3).
 Proof. reflexivity. Qed.
 Example chain_limit_too_small : loop chain 3 [2] = (Raise, 3, 3).
 Proof. reflexivity. Qed.
+
+
+(** * The loop with the ancestry check: it decides exactly like the loop without it, only sooner. *)
+Section Graph2.
+  Variable children : file -> list file.
+  Notation loop := (loop children).
+  Notation round := (round children).
+  Notation rounds := (rounds children).
+  Notation expand := (expand children).
+
+  Lemma rounds_nil : forall k, rounds k [] = [].
+  Proof. induction k; cbn; auto. Qed.
+
+  Lemma rounds_add : forall a b p, rounds (a + b) p = rounds b (rounds a p).
+  Proof. induction a; intros; cbn; auto. Qed.
+
+  Lemma round_incl : forall p q, incl p q -> incl (round p) (round q).
+  Proof.
+    intros p q H x Hx. unfold C17Rounds.round in *. apply in_flat_map in Hx as (y & Hy & Hx).
+    apply in_flat_map. exists y. split; auto.
+  Qed.
+
+  Lemma rounds_incl : forall k p q, incl p q -> incl (rounds k p) (rounds k q).
+  Proof. induction k; intros p q H; cbn; auto. apply IHk, round_incl, H. Qed.
+
+  Lemma rounds_S_end : forall k p, rounds (S k) p = round (rounds k p).
+  Proof. intros. replace (S k) with (k + 1) by lia. rewrite rounds_add. reflexivity. Qed.
+
+  (** [parent_path f ps]: the recorded parents [ps] of a pending instance of file [f] are a path of inclusions
+      ending at it (innermost parent first). *)
+  Fixpoint parent_path (f : file) (ps : list file) : Prop :=
+    match ps with [] => True | a :: t => In f (children a) /\ parent_path a t end.
+
+  Lemma parents_reach : forall l1 f a l2, parent_path f (l1 ++ a :: l2) -> In f (rounds (S (length l1)) [a]).
+  Proof.
+    induction l1 as [|b l1 IH]; intros f a l2 H.
+    - cbn in H. destruct H as [H _]. cbn. rewrite app_nil_r. exact H.
+    - cbn [app parent_path] in H. destruct H as [H1 H2]. apply IH in H2.
+      cbn [length]. rewrite rounds_S_end. unfold C17Rounds.round. apply in_flat_map. exists b. split; assumption.
+  Qed.
+
+  Lemma self_reach_forever : forall f m, In f (rounds m [f]) -> forall i, In f (rounds (i * m) [f]).
+  Proof.
+    intros f m H. induction i as [|i IH]; [cbn; auto|].
+    cbn [Nat.mul]. rewrite rounds_add.
+    apply (rounds_incl (i * m) [f]); [|exact IH]. intros x [<-|[]]. exact H.
+  Qed.
+
+  Lemma cycle_never_empty : forall f m, 0 < m -> In f (rounds m [f]) -> forall j, rounds j [f] <> [].
+  Proof.
+    intros f m Hm H j E. pose proof (self_reach_forever f m H j) as R.
+    replace (j * m) with (j + (j * m - j)) in R by nia. rewrite rounds_add, E, rounds_nil in R. exact R.
+  Qed.
+
+  (** A file found among its own recorded parents lies on a cycle of the inclusion graph. *)
+  Lemma loop_item_forever : forall f ps, parent_path f ps -> In f ps -> forall j, rounds j [f] <> [].
+  Proof.
+    intros f ps C I. apply in_split in I as (l1 & l2 & ->).
+    apply (cycle_never_empty f (S (length l1))); [lia|]. eapply parents_reach, C.
+  Qed.
+
+  Lemma in_never_empty : forall f p, In f p -> (forall j, rounds j [f] <> []) -> forall j, rounds j p <> [].
+  Proof.
+    intros f p I H j E. apply (H j).
+    assert (S : incl (rounds j [f]) (rounds j p)) by (apply rounds_incl; intros x [<-|[]]; exact I).
+    rewrite E in S. apply incl_l_nil, S.
+  Qed.
+
+  (** The loop without the check does not depend on the order of the pending instances. *)
+  Lemma round_perm : forall p q, Permutation p q -> Permutation (round p) (round q).
+  Proof. intros. apply Permutation_flat_map. assumption. Qed.
+
+  Lemma loop_perm : forall k p q, Permutation p q -> loop k p = loop k q.
+  Proof.
+    induction k as [|k IH]; intros p q H; [reflexivity|].
+    rewrite !loop_unfold. destruct p as [|a p], q as [|b q].
+    - reflexivity.
+    - apply Permutation_nil in H. discriminate.
+    - apply Permutation_sym, Permutation_nil in H. discriminate.
+    - rewrite (IH _ _ (round_perm _ _ H)), (Permutation_length H). reflexivity.
+  Qed.
+
+  Variable perm : list item -> list item.
+  Hypothesis perm_ok : forall l, Permutation (perm l) l.
+  Notation loop2 := (loop2 children perm).
+
+  Lemma loop2_unfold : forall k p, loop2 (S k) p =
+    match p with
+    | [] => (Done, 0, 0)
+    | _ :: _ => let q := perm p in
+                if existsb is_loop q then (Raise, 1, before q)
+                else let '(o, r, w) := loop2 k (flat_map expand q) in (o, S r, length q + w)
+    end.
+  Proof. reflexivity. Qed.
+
+  Definition good (x : item) : Prop := parent_path (fst x) (snd x).
+
+  Lemma flat_expand_good : forall q, Forall good q -> Forall good (flat_map expand q).
+  Proof.
+    intros q H. rewrite Forall_forall in *. intros y Hy. apply in_flat_map in Hy as (x & Hx & Hy).
+    unfold C17Rounds.expand in Hy. apply in_map_iff in Hy as (c & <- & Hc). split; [exact Hc | apply (H x Hx)].
+  Qed.
+
+  Lemma map_fst_expand : forall q, map fst (flat_map expand q) = round (map fst q).
+  Proof.
+    induction q as [|x q IH]; [reflexivity|].
+    change (flat_map expand (x :: q)) with (expand x ++ flat_map expand q).
+    change (round (map fst (x :: q))) with (children (fst x) ++ round (map fst q)).
+    rewrite map_app. f_equal; [|exact IH]. unfold C17Rounds.expand. rewrite map_map. cbn [fst]. apply map_id.
+  Qed.
+
+  Lemma before_le : forall q, before q <= length q.
+  Proof. induction q as [|x q IH]; cbn [before length]; [lia|]. destruct (is_loop x); lia. Qed.
+
+  Lemma is_loop_true : forall x, is_loop x = true <-> In (fst x) (snd x).
+  Proof.
+    intros x. unfold is_loop. rewrite existsb_exists. split.
+    - intros (y & Hy & E). apply Nat.eqb_eq in E. subst. exact Hy.
+    - intros H. exists (fst x). split; [exact H | apply Nat.eqb_refl].
+  Qed.
+
+  Lemma loop2_vs_loop : forall limit p, Forall good p ->
+    l_outcome (loop2 limit p) = l_outcome (loop limit (map fst p)) /\
+    (l_outcome (loop limit (map fst p)) = Done -> loop2 limit p = loop limit (map fst p)) /\
+    l_work (loop2 limit p) <= l_work (loop limit (map fst p)) /\
+    l_rounds (loop2 limit p) <= l_rounds (loop limit (map fst p)).
+  Proof.
+    induction limit as [|k IH]; intros p G.
+    - cbn. repeat split; auto.
+    - destruct p as [|x p]; [cbn; repeat split; auto|].
+      rewrite loop2_unfold. cbv zeta.
+      pose proof (perm_ok (x :: p)) as Pq. remember (perm (x :: p)) as q eqn:Eq. clear Eq.
+      assert (Gq : Forall good q) by (eapply Permutation_Forall; [apply Permutation_sym, Pq | exact G]).
+      assert (Pm : Permutation (map fst q) (map fst (x :: p))) by (apply Permutation_map, Pq).
+      assert (Lq : length q = length (map fst (x :: p))) by (rewrite map_length; apply Permutation_length, Pq).
+      destruct (existsb is_loop q) eqn:Hit.
+      + apply existsb_exists in Hit as (y & Hy & L). apply is_loop_true in L.
+        rewrite Forall_forall in Gq. pose proof (loop_item_forever _ _ (Gq y Hy) L) as F.
+        assert (I : In (fst y) (map fst (x :: p))) by (eapply Permutation_in; [exact Pm | apply in_map, Hy]).
+        pose proof (in_never_empty _ _ I F) as NE.
+        destruct (cycle_raises children (S k) _ NE) as [O _].
+        pose proof (before_le q) as B. rewrite Lq in B.
+        revert O B. cbn [map]. rewrite loop_unfold.
+        destruct (C17Rounds.loop children k _) as [[o r] w]. unfold l_outcome, l_work, l_rounds. cbn [fst snd length].
+        intros -> B. repeat split; try lia. discriminate.
+      + specialize (IH (flat_map expand q) (flat_expand_good q Gq)). rewrite map_fst_expand in IH.
+        rewrite (loop_perm k _ _ (round_perm _ _ Pm)) in IH. rewrite Lq.
+        cbn [map] in *. rewrite loop_unfold.
+        destruct (C17Rounds.loop2 children perm k _) as [[o2 r2] w2].
+        destruct (C17Rounds.loop children k _) as [[o r] w]. unfold l_outcome, l_work, l_rounds in *. cbn [fst snd length] in *.
+        destruct IH as (A & B & C & D). repeat split; try lia; [exact A|].
+        intros H. specialize (B H). injection B as -> -> ->. reflexivity.
+  Qed.
+
+  Lemma start_good : forall roots, Forall good (start roots).
+  Proof. intros. apply Forall_forall. intros x Hx. apply in_map_iff in Hx as (f & <- & _). exact I. Qed.
+
+  Lemma map_fst_start : forall roots, map fst (start roots) = roots.
+  Proof. intros. unfold start. rewrite map_map. apply map_id. Qed.
+
+  (** Exactness: the loop with the check raises exactly when the loop without it raises; when they finish they ran
+      the same number of rounds and collapse_one calls. *)
+  Theorem cycle_check_exact : forall limit roots,
+    l_outcome (loop2 limit (start roots)) = l_outcome (loop limit roots) /\
+    (l_outcome (loop limit roots) = Done -> loop2 limit (start roots) = loop limit roots).
+  Proof.
+    intros limit roots. pose proof (loop2_vs_loop limit (start roots) (start_good roots)) as H.
+    rewrite map_fst_start in H. split; apply H.
+  Qed.
+
+  Theorem cycle_check_work_le : forall limit roots,
+    l_work (loop2 limit (start roots)) <= l_work (loop limit roots) /\
+    l_rounds (loop2 limit (start roots)) <= l_rounds (loop limit roots).
+  Proof.
+    intros limit roots. pose proof (loop2_vs_loop limit (start roots) (start_good roots)) as H.
+    rewrite map_fst_start in H. split; apply H.
+  Qed.
+
+  (** The number of rounds no longer depends on the limit: a parent_path of parents never repeats a file. *)
+  Section Bound.
+    Variable univ : list file.
+    Hypothesis closed : forall f, In f univ -> incl (children f) univ.
+
+    Definition inv (d : nat) (x : item) : Prop := NoDup (snd x) /\ incl (fst x :: snd x) univ /\ length (snd x) = d.
+
+    Lemma rounds_le_files_gen : forall limit d p, Forall (inv d) p -> l_rounds (loop2 limit p) <= S (length univ) - d.
+    Proof.
+      induction limit as [|k IH]; intros d p G; [cbn; lia|].
+      destruct p as [|x p]; [cbn; lia|].
+      rewrite loop2_unfold. cbv zeta.
+      pose proof (perm_ok (x :: p)) as Pq. remember (perm (x :: p)) as q eqn:Eq. clear Eq.
+      assert (Gq : Forall (inv d) q) by (eapply Permutation_Forall; [apply Permutation_sym, Pq | exact G]).
+      rewrite Forall_forall in Gq.
+      destruct q as [|y q']; [apply Permutation_nil in Pq; discriminate|]. set (q := y :: q') in *.
+      assert (Hy : In y q) by (left; reflexivity).
+      destruct (existsb is_loop q) eqn:Hit.
+      - destruct (Gq y Hy) as (N & Inc & Len). unfold l_rounds. cbn [fst snd].
+        assert (length (snd y) <= length univ) by (apply NoDup_incl_length; [exact N | intros z Hz; apply Inc; right; exact Hz]).
+        lia.
+      - assert (NL : forall z, In z q -> ~ In (fst z) (snd z)).
+        { intros z Hz L. apply is_loop_true in L. assert (existsb is_loop q = true) by (apply existsb_exists; eauto). congruence. }
+        assert (Sd : S d <= length univ).
+        { destruct (Gq y Hy) as (N & Inc & Len). rewrite <- Len.
+          change (S (length (snd y))) with (length (fst y :: snd y)). apply NoDup_incl_length; [|exact Inc].
+          constructor; [apply NL, Hy | exact N]. }
+        assert (Gn : Forall (inv (S d)) (flat_map expand q)).
+        { apply Forall_forall. intros z Hz. apply in_flat_map in Hz as (u & Hu & Hz).
+          unfold C17Rounds.expand in Hz. apply in_map_iff in Hz as (c & <- & Hc).
+          destruct (Gq u Hu) as (N & Inc & Len). unfold inv. cbn [fst snd length]. repeat split.
+          - constructor; [apply NL, Hu | exact N].
+          - intros z [<-|Hz]; [|apply Inc, Hz]. apply (closed (fst u)); [apply Inc; left; reflexivity | exact Hc].
+          - rewrite Len. reflexivity. }
+        specialize (IH (S d) _ Gn). destruct (C17Rounds.loop2 children perm k _) as [[o r] w].
+        unfold l_rounds in *. cbn [fst snd] in *. lia.
+    Qed.
+
+    Theorem cycle_check_rounds_le_files : forall limit roots, incl roots univ ->
+      l_rounds (loop2 limit (start roots)) <= S (length univ).
+    Proof.
+      intros limit roots H. pose proof (rounds_le_files_gen limit 0 (start roots)) as R.
+      rewrite Nat.sub_0_r in R. apply R. apply Forall_forall. intros x Hx. apply in_map_iff in Hx as (f & <- & Hf).
+      unfold inv. cbn [fst snd length]. split; [apply NoDup_nil|]. split; [|reflexivity].
+      intros z [<-|[]]. apply H, Hf.
+    Qed.
+  End Bound.
+End Graph2.
+
+(** A file that includes itself twice: one collapse, then the second round finds the file among its parents
+    (the loop without the check needs 2^limit - 1 collapses, [self_twice]). *)
+Lemma self_twice_checked : forall limit, 2 <= limit ->
+  loop2 (fun _ => [0; 0]) (fun l => l) limit (start [0]) = (Raise, 2, 1).
+Proof. intros [|[|k]] H; try lia. reflexivity. Qed.
+
+(** The same in whatever order the set hands out the pending instances. *)
+Lemma self_twice_checked_any_order : forall perm, (forall l, Permutation (perm l) l) ->
+  forall limit, 2 <= limit -> loop2 (fun _ => [0; 0]) perm limit (start [0]) = (Raise, 2, 1).
+Proof.
+  unfold item. intros perm P [|[|k]] H; try lia.
+  rewrite loop2_unfold. cbn [start map]. cbv zeta.
+  rewrite (Permutation_length_1_inv (Permutation_sym (P [(0, [])]))).
+  cbn [existsb is_loop fst snd flat_map expand map app]. rewrite loop2_unfold. cbv zeta.
+  match goal with |- context [perm ?l] =>
+    destruct (Permutation_length_2_inv (Permutation_sym (P l))) as [E|E]; rewrite E end; reflexivity.
+Qed.
+
+(** Non-vacuity of the bound and of exactness: a diamond finishes with the same numbers, a 3-cycle is caught in round 4. *)
+Definition diamond (f : file) : list file := match f with 3 => [2; 2] | 2 => [1; 1] | 1 => [0] | _ => [] end.
+Example diamond_same : loop2 diamond (fun l => l) 100 (start [3]) = loop diamond 100 [3].
+Proof. reflexivity. Qed.
+Definition ring3 (f : file) : list file := match f with 0 => [1] | 1 => [2] | _ => [0] end.
+Example ring3_caught : forall limit, 4 <= limit -> loop2 ring3 (fun l => l) limit (start [0]) = (Raise, 4, 3).
+Proof. intros [|[|[|[|k]]]] H; try lia. reflexivity. Qed.
